@@ -271,7 +271,7 @@ func init() {
 		id: "C01", patterns: []string{"./internal", "./template"},
 		trusted: genTrusted,
 		extra:   compilePhase,
-		note:    "lemma-level (necessary mechanisms only): registry bijection between import paths and qualifiers (C15); import bookkeeping of a variable (MethodScope.addImport, populateImports*: invariants and monotonicity, a named type's own package is recorded); variable names avoid qualifiers, type strings, keywords and template identifiers (C14); findPkgPath reads the module path with the go.mod parser, creates only the output directory and terminates; NewTemplateGenerator's in-package test (same package name and same directory); format dispatches on the three documented formatters and errors otherwise. Whether the rendered text type-checks is not decided by contracts.",
+		note:    "lemma-level (necessary mechanisms only): registry bijection between import paths and qualifiers (C15); Registry.Imports returns every registered import exactly as registered, sorted by path (the comparator handed to sort.Slice is proved to order by the path; package sort's contract is assumed), Packages.PkgQualifier finds an import by path; import bookkeeping of a variable (MethodScope.addImport, populateImports*: invariants and monotonicity, a named type's own package is recorded); variable names avoid qualifiers, type strings, keywords and template identifiers (C14); findPkgPath reads the module path with the go.mod parser, creates only the output directory and terminates; NewTemplateGenerator's in-package test (same package name and same directory); format dispatches on the three documented formatters and errors otherwise. Whether the rendered text type-checks is not decided by contracts.",
 	})
 	register(&propInfo{
 		id: "C10", patterns: []string{"./internal/cmd", "./internal", "./config", "./template"},
